@@ -13,6 +13,7 @@ import traceback
 
 import z3
 
+from . import modstate
 from . import core, api, rt, transform
 from .core import Path, PathAbort, EngineLimit, Infeasible
 
@@ -169,6 +170,7 @@ def run_path(module, h, params, prefix, prop_id, known_ids, seed, validate):
     ctx = api.Ctx(path, eng)
     core.set_cur(path)
     rt.clear_stubs()
+    modstate.sync()
     t0 = time.time()
     status = 'ok'
     detail = None
